@@ -73,16 +73,17 @@ struct Expect {
 }
 
 /// Is the paragraph list a well-formed DEP-5 file in the sense of the property's quantifier?
-/// (Lean: `Spec.wellFormed` = lossyShape, headerOnly, licenceNamed, patternsValid.)
-/// header (Format, neither Files nor License) followed by Files paragraphs (Files, Copyright,
-/// License) and stand-alone licence paragraphs (License not beginning with an empty line, no
-/// Files); all patterns with valid escapes.
+/// (Lean: `Spec.wellFormed` = lossyShape, licenceNamed, patternsValid.)
+/// header (a first paragraph with Format; whatever else it carries — a License field, the licence
+/// of the package as a whole, is legal DEP-5; even a Files field does not make it a Files
+/// paragraph) followed by Files paragraphs (Files, Copyright, License) and stand-alone licence
+/// paragraphs (License not beginning with an empty line, no Files); all patterns with valid escapes.
 fn in_domain(text: &str, strict_ok: bool, paras: &[Para]) -> bool {
     if !text.starts_with("Format:") || !strict_ok || paras.is_empty() {
         return false;
     }
     let h = &paras[0];
-    if pget(h, "Format").is_none() || pget(h, "Files").is_some() || pget(h, "License").is_some() {
+    if pget(h, "Format").is_none() {
         return false;
     }
     for p in &paras[1..] {
@@ -106,8 +107,11 @@ fn in_domain(text: &str, strict_ok: bool, paras: &[Para]) -> bool {
     true
 }
 
+/// The first paragraph is the header: Files paragraphs and stand-alone licence paragraphs are
+/// looked for among the paragraphs after it only.
 fn expect(paras: &[Para], path: &str) -> Expect {
-    let files: Vec<&Para> = paras.iter().filter(|p| pget(p, "Files").is_some()).collect();
+    let body: &[Para] = paras.get(1..).unwrap_or(&[]);
+    let files: Vec<&Para> = body.iter().filter(|p| pget(p, "Files").is_some()).collect();
     let pc = chars(path);
     let idx = files
         .iter()
@@ -121,8 +125,7 @@ fn expect(paras: &[Para], path: &str) -> Expect {
             return Some(own);
         }
         let name = own.0?;
-        paras
-            .iter()
+        body.iter()
             .filter(|p| pget(p, "Files").is_none())
             .filter_map(|p| pget(p, "License"))
             .map(ref_license)
@@ -586,6 +589,43 @@ fn gen_files(thorough: bool, rng: &mut Rng, out: &mut Out) {
             find_req(out, &t, p);
         }
     }
+    // ---- headers that carry a License field (legal DEP-5: the licence of the package as a whole),
+    // and, beyond DEP-5, a Files field: the header is set aside by both views (F-C17-3, b19e977).
+    // Every sequence of blocks up to length 2 (quick) / 3 (thorough) after each such header.
+    let lic_headers = [
+        "License: MIT\n",
+        "License: MIT\n header mit text\n",
+        "License: GPL\n header gpl text\n",
+        "Copyright: h\nLicense: GPL\nComment: whole package\n",
+        "Files: *\nCopyright: h\nLicense: MIT\n header with files\n",
+        "Files: a/b\nCopyright: h\nLicense: GPL\n",
+        "Files: *\n",
+    ];
+    for hl in &lic_headers {
+        for seq in lists_upto(&blocks, if thorough { 3 } else { 2 }) {
+            let mut t = format!("{}{}", good_header, hl);
+            for b in &seq {
+                t.push('\n');
+                t.push_str(b);
+            }
+            for p in &spaths {
+                find_req(out, &t, p);
+            }
+        }
+    }
+    // the same with the white-space names (the header's name is compared with nothing at all)
+    for hl in ["License: GPL-2+\n header text\n", "License: GPL-2+ \n header text\n", "License: GPL-2+\n"] {
+        for seq in lists_upto(&wblocks, 2) {
+            let mut t = format!("{}{}", good_header, hl);
+            for b in &seq {
+                t.push('\n');
+                t.push_str(b);
+            }
+            for p in ["a/b", "a/x", "x"] {
+                find_req(out, &t, p);
+            }
+        }
+    }
     // ---- the gate: missing / misplaced / misspelt Format, around one fixed body
     let body = format!("\n{}\n{}", files_para(&["*"], 0, "MIT", 0), STANDALONE[0]);
     let headers = [
@@ -625,21 +665,20 @@ fn gen_files(thorough: bool, rng: &mut Rng, out: &mut Out) {
     // ---- seeded random files
     let n = if thorough { 200_000 } else { 20_000 };
     for _ in 0..n {
-        let mut t = String::new();
-        match rng.below(20) {
-            0 => t.push_str(*rng.pick(&headers)),
-            _ => t.push_str(good_header),
-        }
         let nfiles = rng.below(5);
         let nlic = rng.below(4);
         let mut blocks: Vec<String> = vec![];
         let mut used: Vec<&str> = vec![];
+        let mut file_lics: Vec<&str> = vec![];
+        let mut body_lics: Vec<&str> = vec![];
         for id in 0..nfiles {
             let np = 1 + rng.below(3);
             let pats: Vec<&str> = (0..np).map(|_| *rng.pick(&PATS)).collect();
             used.extend(pats.iter().copied());
             let layout = if rng.chance(40) { 1 + rng.below(2) } else { rng.below(7) };
-            let mut b = files_para(&pats, layout, *rng.pick(&INLINE_LIC), id);
+            let lic = *rng.pick(&INLINE_LIC);
+            file_lics.push(lic);
+            let mut b = files_para(&pats, layout, lic, id);
             match rng.below(40) {
                 0 => b = b.replace("Copyright: ", "Copyrights: "),
                 1 => b = format!("{}Comment: c{}\n", b, id),
@@ -650,7 +689,40 @@ fn gen_files(thorough: bool, rng: &mut Rng, out: &mut Out) {
             blocks.push(b);
         }
         for _ in 0..nlic {
-            blocks.push(rng.pick(&STANDALONE).to_string());
+            let b = *rng.pick(&STANDALONE);
+            body_lics.push(b);
+            blocks.push(b.to_string());
+        }
+        // the header: 1 in 20 one of the gate variants; otherwise the good header, nearly half of
+        // the time with a License field of its own — the name a Files paragraph refers to, the name
+        // of a later stand-alone paragraph, with or without a text of its own — and now and then
+        // with a Files field as well (the header is still only the header)
+        let first_line = |v: &str| v.split('\n').next().unwrap_or("").to_string();
+        let mut t = String::new();
+        if rng.below(20) == 0 {
+            t.push_str(*rng.pick(&headers));
+        } else {
+            t.push_str(good_header);
+            let referred = if file_lics.is_empty() { "MIT".to_string() } else { first_line(*rng.pick(&file_lics)) };
+            let later = if body_lics.is_empty() {
+                "License: GPL".to_string()
+            } else {
+                first_line(*rng.pick(&body_lics))
+            };
+            match rng.below(20) {
+                0 | 1 => t.push_str(&format!("License: {}\n", referred)),
+                2 | 3 | 4 => t.push_str(&format!("License: {}\n header text\n", referred)),
+                5 => t.push_str(&format!("{}\n", later)),
+                6 | 7 => t.push_str(&format!("{}\n header text of a later name\n", later)),
+                8 => t.push_str(*rng.pick(&STANDALONE)),
+                9 => t.push_str(&format!("Copyright: whole\nLicense: {}\n", *rng.pick(&INLINE_LIC))),
+                10 => t.push_str(&format!(
+                    "Files: {}\nCopyright: h\nLicense: {}\n header files text\n",
+                    *rng.pick(&PATS),
+                    referred
+                )),
+                _ => {}
+            }
         }
         // any interleaving of Files and licence paragraphs; Files paragraphs keep their order half
         // of the time (ids then increase), otherwise fully shuffled
